@@ -146,7 +146,10 @@ fn significant(tokens: &[scan::Token], src: &str) -> Vec<Sig> {
                 let between: Vec<&str> = (0..k).filter(|j| code[*j].0 > prev.position).map(|j| text(j)).collect();
                 // a normalisation applied alike to input and output, so it must not depend on tokens the formatter
                 // adds or removes: parentheses and commas may sit on either side of the `=`
-                let is_pun = between.iter().filter(|b| **b == "=").count() == 1 && between.iter().all(|b| matches!(*b, "=" | "(" | ")" | ","));
+                // a comma is tolerated only as a trailing comma (directly before a closing parenthesis): `(a, x,) = x`;
+                // `(/x, = x)` is a separate field, not a pun with the previous `x`
+                let trailing_commas_only = between.iter().enumerate().all(|(n, b)| *b != "," || between.get(n + 1) == Some(&")"));
+                let is_pun = between.iter().filter(|b| **b == "=").count() == 1 && between.iter().all(|b| matches!(*b, "=" | "(" | ")" | ",")) && trailing_commas_only;
                 if prev.norm == norm && is_pun {
                     // the surviving occurrence is the binder / payload: it anchors
                     // the surviving occurrence is the binder / payload (the later one): it is the anchor
